@@ -91,6 +91,31 @@ pub fn reference(word: &[usize]) -> Reference {
     Reference { nesting, enabled: enabled_at, gap_enabled }
 }
 
+/// Layouts of a directive line the Programmer's Reference allows: (before the directive: white space
+/// and C comments; between directive and macro name: white space; after the name: white space and any comment).
+pub const LAYOUTS: &[(&str, &str, &str)] = &[
+    ("", " ", ""),
+    ("  ", "\t", " "),
+    ("/*c*/ ", "  ", " // c"),
+    ("\t", " ", "/*c*/"),
+    ("", " ", " /* c\n   d */"),
+    ("/* a */ /* b */", " \t ", "//c"),
+];
+
+thread_local! {
+    /// (layout of even lines, layout of odd lines) used by `render`
+    static LAYOUT: std::cell::Cell<(usize, usize)> = const { std::cell::Cell::new((0, 0)) };
+}
+
+fn directive_line(sym: &str, line: usize) -> String {
+    let (even, odd) = LAYOUT.with(|l| l.get());
+    let (pre, gap, post) = LAYOUTS[if line % 2 == 0 { even } else { odd }];
+    match sym.split_once(' ') {
+        Some((d, name)) => format!("{pre}{d}{gap}{name}{post}"),
+        None => format!("{pre}{sym}{post}"),
+    }
+}
+
 /// Text of a word: one symbol per line; the i-th marker is `class m<i>;`.
 /// With `garbage`, markers on disabled lines become lexical garbage.
 pub fn render(word: &[usize], r: &Reference, garbage: bool, nameless_at: Option<(usize, &str)>) -> (String, Vec<String>) {
@@ -116,7 +141,7 @@ pub fn render(word: &[usize], r: &Reference, garbage: bool, nameless_at: Option<
                 text.push_str(&format!("class {name};"));
             }
         } else {
-            text.push_str(SYMS[s]);
+            text.push_str(&directive_line(SYMS[s], i));
         }
         text.push('\n');
     }
@@ -226,7 +251,8 @@ fn check(text: &str, expect: Expect, expected: &[String], with_ide: bool) -> Vec
 }
 
 fn case_json(word: &[usize], garbage: bool, nameless: Option<(usize, &str)>) -> Value {
-    json!({ "word": word, "garbage": garbage, "nameless": nameless.map(|(a, d)| json!([a, d])) })
+    let (even, odd) = LAYOUT.with(|l| l.get());
+    json!({ "word": word, "garbage": garbage, "nameless": nameless.map(|(a, d)| json!([a, d])), "layout": [even, odd] })
 }
 
 fn witness(text: &str) -> String {
@@ -263,18 +289,21 @@ impl Engine for C15 {
         format!(
             "every word of length <= {} over {{#define A/B, #ifdef A/B, #ifndef A/B, #else, #endif, marker}}, one symbol per line, the i-th marker being `class m<i>;` \
              (document symbols and diagnostics through the ide for words <= {}); the same words with disabled markers replaced by lexical garbage; \
-             each of the nameless directives #ifdef/#ifndef/#define inserted at every position of every word <= {}. \
+             each of the nameless directives #ifdef/#ifndef/#define inserted at every position of every word <= {}; \
+             every word <= {} with every ordered pair of {} directive-line layouts (white space and C comments before the directive, blanks and tabs before the macro name, white space and line / block / multi-line comments after it) on even and odd lines. \
              non-trivial = the word contains a conditional and a marker; words are distinct by construction.",
             tier.pick(6, 8),
             tier.pick(5, 6),
-            tier.pick(3, 4)
+            tier.pick(3, 4),
+            tier.pick(4, 5),
+            LAYOUTS.len()
         )
     }
 
     fn assumptions(&self) -> Vec<String> {
         vec![
             "reference evaluator: a macro is defined only by an earlier enabled #define; #else flips the innermost open conditional once; ill-nested words (stray #else/#endif, second #else) are only checked for losslessness and totality".into(),
-            "one directive per line with a trailing newline; directives sharing a line with other tokens are covered by C01/C02 only".into(),
+            "one directive per line with a trailing newline, in the layouts the Programmer's Reference grammar allows (a comment between a directive and its macro name is not among them); directives sharing a line with other tokens are covered by C01/C02 only".into(),
         ]
     }
 
@@ -327,6 +356,35 @@ impl Engine for C15 {
             }
             !ctx.expired()
         });
+        // directive layouts: every ordered pair of layouts (even lines, odd lines) for every word of <= 4 (t: 5) symbols
+        let lay_len = tier.pick(4, 5);
+        for even in 0..LAYOUTS.len() {
+            for odd in 0..LAYOUTS.len() {
+                if (even, odd) == (0, 0) {
+                    continue;
+                }
+                LAYOUT.with(|l| l.set((even, odd)));
+                let mut go = true;
+                words::for_each_word(k, lay_len, shard, n, |_, w| {
+                    if !w.iter().any(|&s| SYMS[s].starts_with('#')) {
+                        return true;
+                    }
+                    ctx.trace(|| case_json(w, false, None));
+                    let (_, _, fails) = eval(w, false, None, false);
+                    ctx.case(w.iter().any(|&s| SYMS[s].starts_with("#if")) && w.iter().any(|&s| SYMS[s] == "M"));
+                    ctx.add("layouts", 1);
+                    for f in fails {
+                        ctx.fail(f);
+                    }
+                    go = !ctx.expired();
+                    go
+                });
+                LAYOUT.with(|l| l.set((0, 0)));
+                if !go {
+                    return;
+                }
+            }
+        }
     }
 
     fn eval_case(&self, case: &Value) -> Vec<Failure> {
@@ -339,7 +397,11 @@ impl Engine for C15 {
             .as_array()
             .map(|a| (a[0].as_u64().unwrap_or(0) as usize, a[1].as_str().unwrap_or("#ifdef").to_string()));
         let nameless = nameless_owned.as_ref().map(|(a, d)| (*a, d.as_str()));
-        eval(&word, garbage, nameless, true).2
+        let layout = case["layout"].as_array().map(|a| (a[0].as_u64().unwrap_or(0) as usize % LAYOUTS.len(), a[1].as_u64().unwrap_or(0) as usize % LAYOUTS.len())).unwrap_or((0, 0));
+        LAYOUT.with(|l| l.set(layout));
+        let r = eval(&word, garbage, nameless, true).2;
+        LAYOUT.with(|l| l.set((0, 0)));
+        r
     }
 
     fn shrink(&self, case: &Value, _clause: &str) -> Vec<Value> {
@@ -350,7 +412,7 @@ impl Engine for C15 {
         let garbage = case["garbage"].as_bool().unwrap_or(false);
         let mut out = Vec::new();
         if garbage {
-            out.push(json!({ "word": word, "garbage": false, "nameless": case["nameless"] }));
+            out.push(json!({ "word": word, "garbage": false, "nameless": case["nameless"], "layout": case["layout"] }));
         }
         for w in tgv_core::shrink::deletions(&word) {
             // keep the nameless insertion point inside the word
@@ -358,7 +420,7 @@ impl Engine for C15 {
                 Some(a) => json!([(a[0].as_u64().unwrap_or(0) as usize).min(w.len()), a[1]]),
                 None => Value::Null,
             };
-            out.push(json!({ "word": w, "garbage": garbage, "nameless": nameless }));
+            out.push(json!({ "word": w, "garbage": garbage, "nameless": nameless, "layout": case["layout"] }));
         }
         out
     }
